@@ -35,9 +35,10 @@ type respSpec struct {
 	Close      bool        `json:"close,omitempty"`
 	Gzip       bool        `json:"gzip,omitempty"`
 	CloseAfter int         `json:"close_after,omitempty"` // h1: read that many body bytes, then close the connection without answering
-	ReadOnly   int         `json:"read_only,omitempty"`
-	Early103   bool        `json:"early_103,omitempty"`
-	Trailers   [][2]string `json:"trailers,omitempty"` // h1 chunked: trailer fields after the last chunk // h2/h3 handler: a 103 Early Hints block before the final one   // h2/h3 handler: read that many body bytes, answer, return
+	ReadOnly   int         `json:"read_only,omitempty"`   // h2/h3 handler: read that many body bytes, answer, return
+	Early103   bool        `json:"early_103,omitempty"`   // h2/h3 handler: a 103 Early Hints block before the final one
+	Trailers   [][2]string `json:"trailers,omitempty"`    // h1 chunked: trailer fields after the last chunk
+	Fault      string      `json:"fault,omitempty"`       // bad-chunk | bad-trailer (h1 chunked) | bad-gzip-crc: the body reader delivers data AND an error
 	body       []byte      // entity bytes on the wire
 }
 
@@ -85,6 +86,14 @@ func (s respSpec) raw(method string) []byte {
 			b.Write(rest)
 			b.WriteString("\r\n")
 		}
+		switch {
+		case s.Fault == "bad-chunk": // a malformed chunk-size line right behind complete chunks
+			b.WriteString("zz\r\n")
+			return b.Bytes()
+		case s.Fault == "bad-trailer":
+			b.WriteString("0\r\nthis trailer line has no colon\r\n\r\n")
+			return b.Bytes()
+		}
 		if s.Truncate == 0 {
 			b.WriteString("0\r\n")
 			for _, t := range s.Trailers {
@@ -110,10 +119,11 @@ type h1Obs struct {
 }
 
 type h1Script struct {
-	resps []respSpec
-	obs   []h1Obs
-	done  []chan struct{}
-	gate  func(idx int) // blocks until the client has finished writing request idx (or a timeout)
+	resps  []respSpec
+	obs    []h1Obs
+	done   []chan struct{}
+	gate   func(idx int)   // blocks until the client has finished writing request idx (or a timeout)
+	onBody func(total int) // told how many request-body bytes have arrived so far (streamed uploads)
 }
 
 type h1Origin struct {
@@ -239,7 +249,22 @@ func (o *h1Origin) handle(c net.Conn) {
 				pre++
 			}
 		}
-		io.Copy(io.Discard, rq.Body)
+		if sc.onBody != nil {
+			buf := make([]byte, 4096)
+			total := 0
+			for {
+				n, err := rq.Body.Read(buf)
+				total += n
+				if n > 0 {
+					sc.onBody(total)
+				}
+				if err != nil {
+					break
+				}
+			}
+		} else {
+			io.Copy(io.Discard, rq.Body)
+		}
 		end := cc.size() - br.Buffered()
 		wire := cc.slice(start, end)
 		start = end
@@ -268,22 +293,24 @@ func (o *h1Origin) handle(c net.Conn) {
 // ---------- exchange generator ----------
 
 type exSpec struct {
-	Method   string      `json:"method"`
-	Path     string      `json:"path"`
-	Headers  [][2]string `json:"headers"`
-	BodyKind string      `json:"body_kind"` // none | bytes | reader
-	BodyLen  int         `json:"body_len"`
-	Expect   bool        `json:"expect,omitempty"`
-	ReadBuf  int         `json:"read_buf"`
-	Retry    bool        `json:"retry,omitempty"`
-	Clone    bool        `json:"clone,omitempty"`      // the exchange runs on client.Clone(); the original's dump is switched off first
-	After    bool        `json:"after,omitempty"`      // a plain GET without dumper of its own follows on the same client
-	Warm     bool        `json:"warm_up,omitempty"`    // a GET with its own request-level dumper goes first on the same client / connection
-	WantErr  bool        `json:"want_error,omitempty"` // the scripted exchange ends in an error (reset upload)
-	Abort    string      `json:"abort,omitempty"`      // "h1-close" | "h3-partial": the upload breaks off at an amount the client decides
-	Resps    []respSpec  `json:"resps"`
-	Shape    string      `json:"shape"`
-	body     []byte
+	Method      string      `json:"method"`
+	Path        string      `json:"path"`
+	Headers     [][2]string `json:"headers"`
+	BodyKind    string      `json:"body_kind"` // none | bytes | reader
+	BodyLen     int         `json:"body_len"`
+	Expect      bool        `json:"expect,omitempty"`
+	ReadBuf     int         `json:"read_buf"`
+	Retry       bool        `json:"retry,omitempty"`
+	Clone       bool        `json:"clone,omitempty"`       // the exchange runs on client.Clone(); the original's dump is switched off first
+	ManualRead  int         `json:"manual_read,omitempty"` // > 0: auto-read off, the caller Reads resp.Body with a buffer of this size
+	Interactive []int       `json:"interactive,omitempty"` // streamed upload: part sizes; part i is produced only after the origin has received part i-1
+	After       bool        `json:"after,omitempty"`       // a plain GET without dumper of its own follows on the same client
+	Warm        bool        `json:"warm_up,omitempty"`     // a GET with its own request-level dumper goes first on the same client / connection
+	WantErr     bool        `json:"want_error,omitempty"`  // the scripted exchange ends in an error (reset upload)
+	Abort       string      `json:"abort,omitempty"`       // "h1-close" | "h3-partial": the upload breaks off at an amount the client decides
+	Resps       []respSpec  `json:"resps"`
+	Shape       string      `json:"shape"`
+	body        []byte
 }
 
 var bodySizes = []int{1, 2, 100, 511, 4095, 4096, 4097, 20000, 40000, 70000}
@@ -393,6 +420,17 @@ func genResp(rng *hk.Rand, method string) (respSpec, string) {
 	} else {
 		s.Headers = append(s.Headers, [2]string{"Content-Type", "application/octet-stream"})
 	}
+	// a fault at one particular point: the body reader hands the caller data together with an error
+	switch {
+	case s.Gzip && rng.Chance(30):
+		entity = append([]byte(nil), entity...)
+		entity[len(entity)-8] ^= 0x5a // CRC-32 of the gzip trailer
+		s.Fault = "bad-gzip-crc"
+		shape += "+badcrc"
+	case s.Framing == "chunked" && n > 0 && n <= 2000 && !s.Gzip && len(s.Trailers) == 0 && method != "HEAD" && rng.Chance(30):
+		s.Fault = hk.Pick(rng, []string{"bad-chunk", "bad-trailer"})
+		shape += "+" + s.Fault
+	}
 	s.body = entity
 	s.BodyLen = len(entity)
 	return s, shape
@@ -445,6 +483,25 @@ func genExchange(rng *hk.Rand) exSpec {
 	case k == 5 && final.Framing == "cl" && final.BodyLen > 10 && !final.Gzip && !strings.Contains(rshape, "gbk") && e.Method != "HEAD": // truncated body
 		e.Resps[0].Truncate = final.BodyLen / 2
 		shape += "+truncated"
+	}
+	if e.Retry && final.Fault != "" {
+		// with auto-read off the retried attempt's body is closed unread (nothing to dump): keep
+		// manual reading and retries apart
+		e.Retry, e.Resps = false, []respSpec{final}
+		shape = strings.Replace(shape, "+retry", "", 1)
+	}
+	switch {
+	case final.Fault != "":
+		e.ManualRead = 32768
+	case e.Retry:
+	case rng.Chance(15):
+		e.ManualRead = hk.Pick(rng, []int{512, 4096, 32768})
+		if final.BodyLen <= 2000 && rng.Chance(30) {
+			e.ManualRead = 7
+		}
+	}
+	if e.ManualRead > 0 {
+		shape += fmt.Sprintf("+read%d", e.ManualRead)
 	}
 	if rng.Chance(20) {
 		e.Warm = true
@@ -561,8 +618,15 @@ func (s sentinelW) Write(p []byte) (int, error) {
 	return len(p), nil
 }
 
+type readObs struct {
+	Data []byte
+	St   string // ROk | REnd | RFail
+}
+
 type runOut struct {
 	Res     callRes
+	Reads   []readObs // manual-read mode: every Read of the response body
+	Stalled bool      // interactive upload: a part had to wait for the bound before the origin had the previous one
 	Hang    bool
 	Sink    map[[2]int][]byte
 	Elapsed time.Duration
@@ -647,9 +711,88 @@ func envTrouble(ex exSpec, off, on runOut) bool {
 	if ex.WantErr {
 		return off.Hang || off.Res.Err == "" || off.Res.Err == "timeout"
 	}
-	bad := func(e string) bool { return e != "" && e != "unexpected-eof" }
-	slow := func(x runOut) bool { return x.Hang || x.Res.Err == "timeout" }
+	bad := func(e string) bool { return e != "" && e != "unexpected-eof" && !strings.HasPrefix(e, "body:") }
+	slow := func(x runOut) bool { return x.Hang || x.Res.Err == "timeout" || x.Stalled }
+	if off.Stalled {
+		return true
+	}
 	return off.Hang || bad(off.Res.Err) || (slow(on) && !slow(off))
+}
+
+// stepBody: a streamed request body whose producer hands out part i only after the origin has
+// received everything before it (the acknowledgement comes out of band, here through a channel
+// fed by the origin); a part that is still unacknowledged after stepBound is produced anyway and
+// the run is marked as stalled.
+type stepBody struct {
+	parts   []int
+	data    []byte
+	ack     chan int
+	i, off  int
+	acked   int
+	stalled bool
+}
+
+const stepBound = 4 * time.Second
+
+func (b *stepBody) Read(p []byte) (int, error) {
+	if b.i >= len(b.parts) {
+		return 0, io.EOF
+	}
+	deadline := time.After(stepBound)
+	for b.acked < b.off && !b.stalled {
+		select {
+		case a := <-b.ack:
+			if a > b.acked {
+				b.acked = a
+			}
+		case <-deadline:
+			b.stalled = true
+		}
+	}
+	n := b.parts[b.i]
+	if n > len(p) {
+		n = len(p)
+	}
+	copy(p, b.data[b.off:b.off+n])
+	b.off += n
+	b.parts[b.i] -= n
+	if b.parts[b.i] == 0 {
+		b.i++
+	}
+	return n, nil
+}
+
+func (b *stepBody) Close() error { return nil }
+
+// mkManualResult: the caller-visible result when the caller read the body itself
+func mkManualResult(resp *req.Response, reads []readObs) callRes {
+	cr := callRes{}
+	if resp == nil || resp.Response == nil {
+		return callRes{Err: "error"}
+	}
+	cr.Status, cr.Proto = resp.StatusCode, resp.Proto
+	for k, vs := range resp.Header {
+		if k == "Date" {
+			continue
+		}
+		for _, v := range vs {
+			cr.Header = append(cr.Header, k+": "+v)
+		}
+	}
+	for _, r := range reads {
+		cr.Body = append(cr.Body, r.Data...)
+	}
+	cr.BodyN = len(cr.Body)
+	if len(reads) > 0 && reads[len(reads)-1].St == "RFail" {
+		cr.Err = "body:read-error"
+	}
+	for k, vs := range resp.Trailer {
+		for _, v := range vs {
+			cr.Header = append(cr.Header, "(trailer) "+k+": "+v)
+		}
+	}
+	sort.Strings(cr.Header)
+	return cr
 }
 
 type notifyBody struct {
@@ -659,6 +802,9 @@ type notifyBody struct {
 }
 
 func (b *notifyBody) Close() error { b.once.Do(func() { close(b.ch) }); return nil }
+
+// stepAck: the acknowledgement channel of the current interactive run (runs are sequential)
+var stepAck chan int
 
 var debugW = os.Stderr
 
@@ -704,6 +850,17 @@ func runClient(c *req.Client, url string, ex exSpec, id string, cfg *dumpCfg, wc
 	case "reader":
 		rq.SetBody(io.MultiReader(bytes.NewReader(ex.body))) // no WriterTo, unknown length
 	}
+	var step *stepBody
+	if len(ex.Interactive) > 0 {
+		step = &stepBody{parts: append([]int(nil), ex.Interactive...), data: ex.body, ack: stepAck}
+		if step.ack == nil {
+			step.ack = make(chan int)
+		}
+		rq.SetBody(step)
+	}
+	if ex.ManualRead > 0 {
+		rq.DisableAutoReadResponse()
+	}
 	var bodyClosed chan struct{}
 	if ex.Abort == "h3-partial" {
 		// HTTP/3 writes the body from a goroutine of its own that may still be running (and
@@ -733,18 +890,37 @@ func runClient(c *req.Client, url string, ex exSpec, id string, cfg *dumpCfg, wc
 	}
 	var out runOut
 	type rr struct {
-		resp *req.Response
-		err  error
+		resp  *req.Response
+		err   error
+		reads []readObs
 	}
 	ch := make(chan rr, 1)
 	t0 := time.Now()
 	go func() {
 		defer func() {
 			if p := recover(); p != nil {
-				ch <- rr{nil, fmt.Errorf("panic: %v", p)}
+				ch <- rr{nil, fmt.Errorf("panic: %v", p), nil}
 			}
 		}()
 		resp, err := rq.Send(ex.Method, url)
+		var reads []readObs
+		if ex.ManualRead > 0 && err == nil && resp != nil && resp.Response != nil && resp.Body != nil {
+			buf := make([]byte, ex.ManualRead)
+			for k := 0; k < 100000; k++ {
+				n, e := resp.Body.Read(buf)
+				st := "ROk"
+				if e == io.EOF {
+					st = "REnd"
+				} else if e != nil {
+					st = "RFail"
+				}
+				reads = append(reads, readObs{Data: append([]byte(nil), buf[:n]...), St: st})
+				if e != nil {
+					break
+				}
+			}
+			resp.Body.Close()
+		}
 		if ex.After && err == nil {
 			// the main request's dumper must see nothing of what follows on the same client
 			ar := c.R().SetHeader("X-Case", id)
@@ -755,7 +931,7 @@ func runClient(c *req.Client, url string, ex exSpec, id string, cfg *dumpCfg, wc
 				r2.Bytes()
 			}
 		}
-		ch <- rr{resp, err}
+		ch <- rr{resp, err, reads}
 	}()
 	var got rr
 	select {
@@ -765,7 +941,15 @@ func runClient(c *req.Client, url string, ex exSpec, id string, cfg *dumpCfg, wc
 	}
 	out.Elapsed = time.Since(t0)
 	if !out.Hang {
-		out.Res = mkResult(got.resp, got.err)
+		if ex.ManualRead > 0 && got.err == nil {
+			out.Res = mkManualResult(got.resp, got.reads)
+			out.Reads = got.reads
+		} else {
+			out.Res = mkResult(got.resp, got.err)
+		}
+		if step != nil {
+			out.Stalled = step.stalled
+		}
 		// an upload that broke off: the writing side may outlive the call; wait until it is done
 		// (h1: writeRequest has returned - WroteRequest; h3: the body was closed) before looking
 		switch {
@@ -799,12 +983,24 @@ func warmURL(u string) string {
 func h1Run(o *h1Origin, id string, ex exSpec, cfg *dumpCfg) (runOut, *h1Script) {
 	wc := newWroteCounter()
 	sc := o.register(id, scriptResps(ex), wc.waitFor)
+	var ackCh chan int
+	if len(ex.Interactive) > 0 {
+		ackCh = make(chan int, 256)
+		sc.onBody = func(total int) {
+			select {
+			case ackCh <- total:
+			default:
+			}
+		}
+	}
 	addr := o.ln.Addr().String()
 	c := req.C().SetDial(func(ctx context.Context, network, _ string) (net.Conn, error) {
 		var d net.Dialer
 		return d.DialContext(ctx, network, addr)
 	})
+	stepAck = ackCh
 	out := runClient(c, "http://c13.test"+ex.Path, ex, id, cfg, wc)
+	stepAck = nil
 	if !out.Hang {
 		// wait until the origin has finished recording every hit that was started
 		for i := range sc.done {
@@ -929,6 +1125,13 @@ func coqChunks(has bool, chunks [][]byte, pl *pool) string {
 func coqReads(p partsObs, pl *pool) string {
 	if p.NoResp {
 		return "[]"
+	}
+	if len(p.Reads) > 0 {
+		var o []string
+		for _, r := range p.Reads {
+			o = append(o, "("+pl.enc(r.Data)+", "+r.St+")")
+		}
+		return hk.CoqList(o)
 	}
 	st := "RFail"
 	if p.RespEOF {
@@ -1100,6 +1303,13 @@ func h1PairsGen(r *hk.Run, rng *hk.Rand, count int, gen func(*hk.Rand) exSpec) {
 			p := h1PartsOf(ob, resps[k], method, on.Res.Body, final, on.Res.Err)
 			p.parts.Warm = ex.Warm && k == 0
 			p.parts.After = isAfter
+			if final && len(on.Reads) > 0 {
+				p.parts.Reads = on.Reads
+				if l := on.Reads[len(on.Reads)-1]; l.St == "RFail" {
+					r.Count(fmt.Sprintf("response-body Read delivered data together with an error=%v", len(l.Data) > 0))
+				}
+				p.parts.RespEOF = on.Reads[len(on.Reads)-1].St == "REnd"
+			}
 			xs = append(xs, p.parts)
 			hps = append(hps, p)
 			pl.add(p.hdr)
@@ -1141,6 +1351,18 @@ func h1PairsGen(r *hk.Run, rng *hk.Rand, count int, gen func(*hk.Rand) exSpec) {
 		if which, g, w, ok := compareContents(on.Sink, want); !ok {
 			failOnce(r, hk.Failure{Sig: "faithful:" + which + ":" + sigBase, What: "content of a dump writer is not exactly the selected parts routed to it", Input: in, Got: g, Want: w})
 		}
+		if len(ex.Interactive) > 0 {
+			// transparency in time: the producer waits for the origin to have the previous part
+			if on.Stalled && !off.Stalled {
+				failOnce(r, hk.Failure{Sig: "transparent:progress:" + sigBase, What: fmt.Sprintf("a streamed upload whose producer waits for the origin to have received the previous part makes progress with dump off but stalls (> %v per part) with dump on: the chunks are not flushed one by one", stepBound), Input: in,
+					Got: "stalled", Want: "every part acknowledged by the origin before the next is produced"})
+			}
+			if len(hps) > 0 {
+				hp := hps[len(hps)-1]
+				r.Add(hk.Case{Coq: pl.wrap(fmt.Sprintf("FlushCase %s %s %s %s %s", coqOptOpt(cfg.Client, 0), coqOptOpt(cfg.Request, 1), pl.enc(hp.hdr), coqChunks(true, hp.chunks, pl)[len("(Some "):len(coqChunks(true, hp.chunks, pl))-1], hk.CoqBool(!on.Stalled))),
+					Desc: map[string]interface{}{"kind": "h1-flush", "exchange": ex, "dump": cfg}}, "h1f|"+keyOf(in), cfg.anyOn())
+			}
+		}
 		nt := cfg.anyOn() && (ex.BodyLen > 0 || ex.Resps[len(ex.Resps)-1].BodyLen > 0 || len(ex.Resps) > 1 || strings.Contains(ex.Shape, "longhdr") || ex.ReadBuf != 0)
 		emitExch(r, cfg, coqX, xs, on.Sink, pl, map[string]interface{}{"kind": "h1", "exchange": ex, "dump": cfg}, "h1|"+keyOf(in), nt)
 	}
@@ -1152,4 +1374,33 @@ func wireSummary(obs []h1Obs) []string {
 		o = append(o, fmt.Sprintf("%d bytes (+%d after early reply): %s", len(ob.Wire), ob.Extra, clip(ob.Wire)))
 	}
 	return o
+}
+
+// genH1Interactive: a streamed upload of unknown length (chunked) in 2-4 small parts (less than a
+// write buffer in total), each produced only after the origin has acknowledged the previous one
+func genH1Interactive(rng *hk.Rand) exSpec {
+	var ex exSpec
+	ex.Method = hk.Pick(rng, []string{"POST", "PUT"})
+	ex.Path = fmt.Sprintf("/stream%d", rng.Intn(1000))
+	ex.Headers, _ = genHeaders(rng, "X-Q-")
+	ex.BodyKind = "step"
+	k := rng.Range(2, 4)
+	for i := 0; i < k; i++ {
+		n := hk.Pick(rng, []int{1, 10, 100, 700})
+		ex.Interactive = append(ex.Interactive, n)
+		ex.BodyLen += n
+	}
+	ex.body = genBytes(rng, ex.BodyLen, rng.Chance(60))
+	final, _ := genResp(rng, ex.Method)
+	final.Fault, final.Trailers = "", nil
+	if final.Gzip { // keep it plain
+		final = respSpec{Status: 200, Framing: "cl", body: []byte("ok"), BodyLen: 2, Headers: [][2]string{{"Content-Type", "text/plain; charset=utf-8"}}}
+	}
+	ex.Resps = []respSpec{final}
+	ex.Shape = fmt.Sprintf("interactive-upload+parts%d", k)
+	return ex
+}
+
+func h1InteractivePairs(r *hk.Run, rng *hk.Rand, count int) {
+	h1PairsGen(r, rng, count, genH1Interactive)
 }
